@@ -1,4 +1,5 @@
 """C35 HTTP GET requests never execute mutations — gate discovery + per-integration GET sites."""
+import json
 import re
 
 from factlib import trace
@@ -116,3 +117,95 @@ def run(F, R):
         need = {"async_graphql::schema", "async_graphql::dynamic::schema"}
         got = {u for u in need if any(x.startswith(u + "::") or x == u for x in users)}
         R.check(got == need, "R35.1", "gate-checked-by-both-executors", "-", "prepare_request used by %s" % sorted(got), "executors bypassing prepare_request: %s" % sorted(need - got))
+
+    R.rule("R35.2", "method dispatch (finite domain, K4): in every integration extractor that tests the HTTP method, assuming the method is GET the body "
+                    "decoders (http::receive_body / receive_batch_body / receive_json ..) are unreachable — a GET request can only become a Request "
+                    "through the gated query-string decoder, whatever the URI or body look like")
+    from common import decided_reachable
+    from factlib import resolve_const
+    n2 = 0
+    for b in F.bodies.values():
+        if b.defp.split("::")[0] not in INTEGRATIONS:
+            continue
+        body_dec = [c for c in b.calls() if c.callee and re.search(r"async_graphql::http::(receive_body|receive_batch_body|receive_json|receive_batch_json|receive_cbor|receive_batch_cbor)$", c.callee)]
+        get_dec = [c for c in b.calls() if c.callee and re.search(r"async_graphql::http::parse_query_string$", c.callee)]
+        BODY_RX = r"async_graphql::http::(receive_body|receive_batch_body|receive_json|receive_batch_json|receive_cbor|receive_batch_cbor)$"
+        # async blocks / closures created here that decode a body count as sinks at their creation site
+        for (cbb, cdef, st) in b.closures_created():
+            cb = F.get(cdef)
+            if cb and any(c.callee and re.search(BODY_RX, c.callee) for x in F.with_nested(cb) for c in x.calls()):
+                class _S:
+                    pass
+                s_ = _S(); s_.bb = cbb; s_.where = (lambda st_=st: "%s:%s" % (b.file, st_[2]))
+                body_dec.append(s_)
+        if not body_dec or not get_dec:
+            continue
+        n2 += 1
+
+        def is_get_const(op):
+            k = resolve_const(b, op)
+            txt = json.dumps(k)
+            return "Method::GET" in txt
+
+        def call_decider(c, assume_get=True):
+            if c.callee and c.callee.endswith(("::eq", "::ne")) and any("Method" in t for t in c.argtys):
+                if any(is_get_const(a) for a in c.args):
+                    v = 1 if assume_get else 0
+                    return v ^ (1 if c.callee.endswith("::ne") else 0)
+            return None
+
+        def switch_decider(bb, d):
+            place, adt, vmap = d
+            if adt.endswith("http::method::Inner"):
+                t = b.term(bb)
+                taken = t[3]
+                for v, tgt in t[2]:
+                    if vmap.get(v) == "Get":
+                        taken = tgt
+                return taken
+            return None
+
+        tests = [c for c in b.calls() if call_decider(c) is not None] + [bb for bb, t in b.switches() if b.disc_of_switch(bb) and b.disc_of_switch(bb)[1].endswith("http::method::Inner")]
+        key = re.sub(r"\{closure#\d+\}", "{c}", re.sub(r"\{impl#\d+\}", "{impl}", b.defp))
+        if not tests:
+            R.violation("R35.2", "method-test-missing:" + key, b.where(), "the extractor decodes both query strings and bodies but never tests the HTTP method")
+            continue
+        hit = decided_reachable(b, [c.bb for c in body_dec], call_decider, switch_decider)
+        R.check(not hit, "R35.2", "get-never-reaches-body-decoder:" + key, b.where(), "with method = GET only parse_query_string is reachable (%d method tests)" % len(tests),
+                "with method = GET the body decoder at %s is still reachable (e.g. a GET without a query string): the request it yields carries no mutation gate, so a "
+                "mutation sent in the body of a GET is executed" % [c.where() for c in body_dec if c.bb in hit][:1])
+    R.floor("R35.2", "extractors decoding both GET query strings and bodies", n2, 3)
+
+    R.rule("R35.3", "request-scoped restrictions survive every rebuild of a Request: wherever the core or an integration constructs a Request from another one "
+                    "(struct update in extensions such as persisted queries), the fields disable_mutation and introspection_mode are copied from the source request, "
+                    "never taken from a fresh Request::new()")
+    n3 = 0
+    keep = sorted(set(gates) | {"introspection_mode"})
+    setters_rx = r"async_graphql::request::\{impl#\d+\}::(disable_mutation|disable_introspection|only_introspection)$"
+    for b in F.bodies.values():
+        if not re.match(r"async_graphql(_axum|_actix_web|_poem|_warp|_rocket)?::", b.defp) or "::tests::" in b.defp:
+            continue
+        if re.search(r"async_graphql::request::\{impl#\d+\}::new$", b.defp):
+            continue
+        for (bb, r, line) in find_aggs(b, r"^async_graphql::request::Request$"):
+            names = r[4]
+            # a rebuild: some field is moved out of an existing Request
+            src = [o_ for o_ in r[5] if o_[0] in ("c", "m") and len(o_[1]) > 1 and "request::Request" in b.locals[o_[1][0]] and "BatchRequest" not in b.locals[o_[1][0]]]
+            if not src:
+                continue
+            for fname in keep:
+                if fname not in names:
+                    continue
+                op = r[5][names.index(fname)]
+                n3 += 1
+                o, passed = trace(b, op, through_calls=False)
+                calls_ = [x for k, x in o if k == "call"]
+                fresh = [x for x in calls_ if x.callee and re.search(r"async_graphql::request::\{impl#\d+\}::new$", x.callee)]
+                marked = [x for x in calls_ if x.callee and re.search(setters_rx, x.callee)]
+                copied = any(k == "field" and ("." + fname) in x for k, x in o) or (op[0] in ("c", "m") and ("." + fname) in op[1])
+                key = re.sub(r"\{closure#\d+\}", "{c}", re.sub(r"\{impl#\d+\}", "{impl}", b.defp.replace("async_graphql::", "")))
+                R.check(bool(marked) or (copied and not fresh), "R35.3", "request-rebuild-keeps:%s:%s" % (fname, key), "%s:%s" % (b.file, line),
+                        "%s %s" % (fname, "set by " + marked[0].callee.split("::")[-1] if marked else "copied from the source request"),
+                        "a Request is rebuilt with `%s` taken from a fresh Request::new(): the restriction carried by the incoming request (GET ⇒ no mutations / "
+                        "introspection mode) is silently dropped before execution" % fname)
+    R.floor("R35.3", "Request rebuild sites x restricted fields", n3, 4)
